@@ -267,7 +267,7 @@ def refcell_discipline(prog, reach):
     viol = []
     n_guards = 0
     for d, insts in sorted(by_def.items()):
-        b = prog.bodies.get(d)
+        b = prog.raw_bodies.get(d)  # instance call lists refer to the blocks of the function as written
         if b is None:
             continue
         for bi, t in b.calls():
@@ -335,7 +335,7 @@ def run(ctx):
     if not viol:
         ctx.ob("REFCELL", "discipline", True, f"{n_guards} borrow()/borrow_mut() guards: each is dropped in the function that creates it; no borrow runs under a RefMut and no mutable borrow runs under a Ref (transitively, over the monomorphic call graph)", None, None)
     for d, bb, why in viol:
-        ctx.ob("REFCELL", f"{d}|{why[:60]}", False, f"{d} bb{bb}: {why}", prog.bodies[d].file, prog.bodies[d].line)
+        ctx.ob("REFCELL", f"{d}|{why[:60]}", False, f"{d} bb{bb}: {why}", prog.raw_bodies[d].file, prog.raw_bodies[d].line)
 
     # BCN
     facts = bcn_facts(prog)
